@@ -733,7 +733,7 @@ def _my_to_char_ext(x):
         raise Flag('text form of a double needing more than 15 significant digits')
     return _to_text(x)
 def _my_concat_ext(*a):
-    """MySQL 12.8 CONCAT(): NULL if any argument is NULL; "a numeric argument is converted to its equivalent nonbinary string form""""
+    """MySQL 12.8 CONCAT(): NULL if any argument is NULL; "a numeric argument is converted to its equivalent nonbinary string form" """
     if any(x is None for x in a): return None
     return ''.join(_my_to_char_ext(x) if isinstance(x, float) else str(x) for x in a)
 def _row_or_null(*a):
